@@ -870,3 +870,30 @@ Proof.
     + cbn [fst snd] in Hne. contradiction.
   - rewrite Hg in Hne. cbn [fst snd] in Hne. contradiction.
 Qed.
+
+(* ------------------------------------------------------------------ only responses touch the transaction table *)
+(* a datagram that is not a success / error response -- a request, an indication, anything
+   undecodable or non-STUN -- leaves pending transactions, results and rounds as they are, even if
+   it carries the transaction id of an outstanding transaction (e.g. the agent's own check looped
+   back by a reflector) *)
+Theorem only_responses_touch_transactions : forall s sk la src k, ~ is_response k ->
+  let s' := fst (on_packet s sk la src k) in
+  a_pending s' = a_pending s /\ a_done s' = a_done s /\ a_rounds s' = a_rounds s.
+Proof.
+  intros s sk la src k Hn. destruct (classify k) eqn:Hc.
+  - unfold on_packet; rewrite Hc; cbn. auto.
+  - unfold on_packet; rewrite Hc; cbn. auto.
+  - apply request_keeps_transactions. exact Hc.
+  - exfalso. apply Hn. left. exact Hc.
+  - exfalso. apply Hn. right. exact Hc.
+  - unfold on_packet; rewrite Hc; cbn. auto.
+Qed.
+
+Example echoed_check_keeps_transaction :
+  let t := mkTxn 7 (mkPair f18_local (prflx f18_stranger)) false 1 in
+  let s := launch f18_agent t in
+  let echo_req := mkPkt 0 1 true 7 false true false true false 5 2 in
+  let echo_ind := mkPkt 0 17 true 7 false true false true false 5 2 in
+  lookup 7 (a_pending (fst (on_packet s KUdp (2130706433, 50000) f18_stranger echo_req))) = Some t /\
+  lookup 7 (a_pending (fst (on_packet s KUdp (2130706433, 50000) f18_stranger echo_ind))) = Some t.
+Proof. vm_compute. split; reflexivity. Qed.
